@@ -263,7 +263,7 @@ theorem sheet_step (s : State) (cmd : Cmd) (h : SheetInv s) : SheetInv (step s c
         have := afterDelete_lt hsel hi hn
         refine ⟨?_, hst.1, hst.2⟩
         simp only; omega
-      · exact ⟨hsel, hst.1, hst.2⟩
+      · exact ⟨hsel, hu, hr⟩
   | hideSheet i =>
     rw [sheetInv_iff] at h ⊢
     obtain ⟨hsel, hu, hr⟩ := h
